@@ -250,6 +250,18 @@ def register(reg):
                  note='encoder driver: state built from the message\'s flag / count and the given value lists; per subset a context switch, '
                       'the value cursor at 0, and one walk'))
 
+    # C07: the bitmap is the n_031031 values that end at the value cursor (of subset 0 when compressed)
+    from contracts.coder import define_bitmap_requires, define_bitmap_modifies, define_bitmap_ensures
+    VL = 'ite(state.is_compressed, select(state.decoded_values_all_subsets, 0), state.decoded_values)'
+    add(Contract(M + 'Encoder.define_bitmap', {'self': ENC, 'state': S, 'reuse': BOOL}, returns=ListT(VAL),
+                 requires=define_bitmap_requires() + ['select(state.decoded_values_all_subsets, 0) != None',
+                                                      # the counted bits were taken from the value list: the cursor has passed them
+                                                      '0 <= state.n_031031', 'state.n_031031 <= state.idx_value', 'state.idx_value <= len(%s)' % VL],
+                 modifies=define_bitmap_modifies(), allocates=['state.next_bitmapped_descriptor.lst', 'state.next_bitmapped_descriptor.pos'],
+                 ensures=define_bitmap_ensures((VL, '(state.idx_value - old(state.n_031031))', 'old(state.n_031031)')),
+                 raises={'PyBufrKitError': None}, serves=['C07'],
+                 note='encoder: bitmap = the n_031031 given values that end at the value cursor; kept in state.bitmap iff defined for reuse'))
+
 
 def register_sections(reg):
     """Encoder.process_unexpanded_descriptors / process_section (C02, C04): F X Y packing, padding, length back-patch, honour mode"""
